@@ -8,9 +8,10 @@ from __future__ import annotations
 from hypothesis import strategies as st
 
 # dyadic alphabets: every partial sum / sum of squares / product is exact (DESIGN §3.1)
-SUM_ALPHA = [-4.0, -2.5, -1.0, -0.5, 0.0, 0.5, 1.0, 1.0, 3.0, 1024.0]
+# 1 + 2**-30 is exact in float64 but not in float32: a float32 intermediate shows up as a wrong value
+SUM_ALPHA = [-4.0, -2.5, -1.0, -0.5, 0.0, 0.5, 1.0, 1.0, 3.0, 1024.0, 1.0 + 2.0**-30]
 PROD_ALPHA = [0.5, -0.5, 1.0, -1.0, 2.0, -2.0, 1.0, 0.0]
-VAR_ALPHA = [-3.0, -1.0, 0.0, 0.5, 1.0, 2.0]
+VAR_ALPHA = [-3.0, -1.0, 0.0, 0.5, 1.0, 2.0, 1.0 + 2.0**-20]
 INT_ALPHA = [-4, -2, -1, 0, 1, 1, 3, 7]
 UINT_ALPHA = [0, 1, 1, 2, 3, 7]
 PROD_INT_ALPHA = [-2, -1, 1, 1, 2, 0]
@@ -36,9 +37,17 @@ def alphabet_for(func: str, dt: str):
     if kind == "b":
         return [True, False]
     if kind == "f":
-        return {"prod": PROD_ALPHA, "var": VAR_ALPHA, "sum": SUM_ALPHA}[fam]
+        alpha = {"prod": PROD_ALPHA, "var": VAR_ALPHA, "sum": SUM_ALPHA}[fam]
+        if dt != "<f8":
+            # float32 arrays only get values whose sums / squares are exact in 24 bits
+            alpha = [x for x in alpha if float(x) * 2**10 == int(float(x) * 2**10)]
+        return alpha
     if kind == "i":
+        if fam != "prod" and dt == "<i8":
+            return INT_ALPHA + [2**40 + 1, -(2**35)]  # beyond int32 / float32 precision
         return PROD_INT_ALPHA if fam == "prod" else INT_ALPHA
+    if fam != "prod" and dt == "<u8":
+        return UINT_ALPHA + [2**40 + 1]
     return PROD_UINT_ALPHA if fam == "prod" else UINT_ALPHA
 
 
